@@ -148,8 +148,11 @@ pub(crate) fn spec_patch_channel_blend(
     }
 }
 
+/// "clamped to [0, 1]": 0 below 0, 1 above 1, the value itself otherwise -- which is `f32::clamp(0.0, 1.0)`
+/// (written with the library function so that CBMC sees the same operand expression on both sides of a
+/// bit-exact comparison; `spec_clamp01_is_clamp` in the blend harness pins it to the case distinction).
 pub(crate) fn spec_clamp01(v: f32) -> f32 {
-    if v < 0.0 { 0.0 } else if v > 1.0 { 1.0 } else { v }
+    v.clamp(0.0, 1.0)
 }
 
 /// One output sample. `old_alpha` / `new_alpha` are ignored unless `b.uses_alpha`.
